@@ -122,13 +122,16 @@ def run(ctx):
             getm = [e for e in p.events if ev_is(e, "IndexMap::get_mut", "IndexMap::entry")]
             okc = bool(cl) and mentions(cl[0].args[0], lambda s: s == ("param", 2))
             ctx.check(okc, "D2-KEY", fn, "classified-name", "the line's own name is classified", "%s classifies something other than its path argument" % fn, fn_span(body), nontrivial=False)
-            okg = bool(getm) and all(mentions(e.args[1], lambda s: s == ("param", 2)) for e in getm)
+            # ... by the line's own name and nothing derived from it through the library's fuzzy lookups (find_entry matches trailing components)
+            def literal_name(t):
+                return mentions(t, lambda s: s == ("param", 2)) and not mentions(t, lambda s: is_call(s) and (s[1].startswith("distinfo::") or "Path::file_name" in s[1] or "Path::strip_prefix" in s[1] or "Path::ends_with" in s[1]))
+            okg = bool(getm) and all(literal_name(e.args[1]) for e in getm)
             ctx.check(okg, "D3-LOOKUP", fn, "lookup-by-name", "existing entry looked up by the line's name", "%s does not look the entry up by its path argument" % fn, fn_span(body), nontrivial=False)
             for e in insert:
                 ins += 1
                 key = e.args[1]
                 ent = agg_variant(strip_refs(e.args[2])) if len(e.args) > 2 else None
-                okk = mentions(key, lambda s: s == ("param", 2))
+                okk = literal_name(key)
                 okf = False
                 if ent and ent[0] == "distinfo::Entry":
                     flds = dict(zip(strip_refs(e.args[2])[5], ent[2]))
